@@ -473,6 +473,10 @@ where
                         Ok(CoroutineState::Suspend(y, timestamp))
                     }
                     CoroutineState::Syscall(y, syscall, state) => {
+                        // the request stacks are per thread: consume what this yield
+                        // pushed, otherwise the next coroutine's yield reports it
+                        _ = Suspender::<Yield, Param>::is_cancel();
+                        _ = Suspender::<Yield, Param>::timestamp();
                         Ok(CoroutineState::Syscall(y, syscall, state))
                     }
                     _ => Err(Error::other(format!(
